@@ -147,3 +147,31 @@ func TestReplayOtherSecondary(t *testing.T) {
 		runHistory(t, f, []pools.Op{alloc(0), allocAlt(0)}, runOpt{checkStats: true, failAt: 2})
 	}
 }
+
+// pmSubOwnedBy returns the index of a subscriber id (sub-0..7) whose rendezvous owner among {node-a,node-b} is owner.
+func pmSubOwnedBy(t *testing.T, owner string) int {
+	r := runPeerMulti(t, pools.V4Net{CIDR: "10.0.0.0/28", Gateway: "10.0.0.1", Class: "replay"}, 1, nil, false)
+	for i, id := range r.ids {
+		if r.local.p.VerifRanked(id)[0] == owner {
+			return i
+		}
+	}
+	t.Fatalf("no subscriber id owned by %s", owner)
+	return 0
+}
+
+// KF-C05-14: allocated on the (healthy) remote owner, the owner is then marked unhealthy, Release is routed to the local
+// node, which holds nothing ("already released", nil): the remote keeps the address for ever.
+func TestReplayPeerMultiRemoteLeak(t *testing.T) {
+	i := pmSubOwnedBy(t, "node-b")
+	runPeerMulti(t, pools.V4Net{CIDR: "10.0.0.0/28", Gateway: "10.0.0.1", Class: "replay"}, 1,
+		[]pmOp{{K: pmAlloc, S: i}, {K: pmMark, S: 0, On: false}, {K: pmRelease, S: i, C: 0}}, false)
+}
+
+// KF-C05-15: allocated locally as a fallback while the remote owner is marked unhealthy, the owner is marked healthy
+// again, Release is forwarded to it; it holds nothing and answers 204: the local node keeps the address for ever.
+func TestReplayPeerMultiLocalLeak(t *testing.T) {
+	i := pmSubOwnedBy(t, "node-b")
+	runPeerMulti(t, pools.V4Net{CIDR: "10.0.0.0/28", Gateway: "10.0.0.1", Class: "replay"}, 1,
+		[]pmOp{{K: pmMark, S: 0, On: false}, {K: pmAlloc, S: i}, {K: pmMark, S: 0, On: true}, {K: pmRelease, S: i, C: 0}}, false)
+}
